@@ -626,9 +626,9 @@ func main() {
 	}
 	r.Set("distinct_observation_classes", obs)
 	r.Exhaustive(exhaustive)
-	r.Rule(fmt.Sprintf("per configuration one BFS to fixpoint (seqx) from a pristine state whose first op picks ANY of the 2^N-1 initial replica distributions, then any node holding the object runs the real policer pass, in every order; configurations: one REP rule, N=3..%d reachable nodes, container = first m nodes (REP<=m<=N, the rest is outside the container), REP 1..3; two REP rules: every ordered pair of lists of 1..%d nodes over %d nodes up to renaming x REP 1..3. state = set of holders; distinct non-trivial = distinct (configuration, holder set) states reached", maxN, len2, n2))
-	r.Assume("stable network map, every node reachable and accepting replicas (as the property states); one object (objects are independent in the policer); policer passes of different nodes do not overlap in time (each pass is atomic)",
-		"convergence oracle: every state that is not 'settled' (all primary nodes hold the object and no replication can ever start again) has a pass that changes it, and the state-changing transitions among unsettled states form no cycle => every fair order settles; additionally round-robin rounds are simulated from every state. For one rule the stricter reading is also enforced: no pass starts replication once all primaries hold the object",
+	r.Rule(fmt.Sprintf("per configuration one BFS to fixpoint (seqx) from a pristine state whose first op picks ANY of the 2^N-1 initial replica distributions, then any node holding the object runs the real policer pass, in every order; configurations: one REP rule, N=3..%d reachable nodes, container = first m nodes (REP<=m<=N, the rest is outside the container), REP 1..3; two REP rules: every ordered pair of lists of 1..%d nodes over %d nodes up to renaming x REP 1..3; every configuration additionally with each REPLICATE fault pattern: none / one node (every position) refusing every replica / one node refusing its first replica (thorough, one rule: also two always-refusing nodes and always-refusing + refusing-once pairs), HEAD of such a node still answers 404. state = set of holders + pending one-time refusals; distinct non-trivial = distinct (configuration, holder set) states reached", maxN, len2, n2))
+	r.Assume("stable network map, every node reachable (HEAD always answered); replicas are accepted except by the nodes of the configuration's fault pattern; the real replicator.HandleTask and putsvc.RemoteSender run between the policer and fake per-node clients that consume the object source exactly like the SDK client (read-once; prepared message cached only inside a DemuxReplicatedObject wrapper) - the model is calibrated against the real SDK client at start-up; one object (objects are independent in the policer); policer passes of different nodes do not overlap in time (each pass is atomic)",
+		"convergence oracle: every state that is not 'settled' (all primary nodes hold the object and no replication can ever start again) has a pass that changes it, and the state-changing transitions among unsettled states form no cycle => every fair order settles; additionally round-robin rounds are simulated from every state. For one rule without faults the stricter reading is also enforced: no pass starts replication once all primaries hold the object. With a container node that refuses every replica the target is computed from the policy as: rules whose primaries can all take replicas hold it on all primaries, a rule with a refusing primary holds it on min(REP, list nodes able to take it) nodes of its list; replication to the refusing node is retried forever, so quiescence is not demanded there",
 		"transient over-replication (copies on non-primary nodes that are dropped later) is measured (graph.max_simultaneous_copies), not judged")
 	r.Finish()
 }
